@@ -170,12 +170,12 @@ def query_traversal(node, callback, is_table=False, is_target=False, parent_quer
             node.right = node_out
 
     elif isinstance(node, ast.Join):
-        node_out = query_traversal(node.right, callback, is_table=True, parent_query=parent_query)
-        if node_out is not None:
-            node.right = node_out
         node_out = query_traversal(node.left, callback, is_table=True, parent_query=parent_query)
         if node_out is not None:
             node.left = node_out
+        node_out = query_traversal(node.right, callback, is_table=True, parent_query=parent_query)
+        if node_out is not None:
+            node.right = node_out
         if node.condition is not None:
             node_out = query_traversal(node.condition, callback, parent_query=parent_query)
             if node_out is not None:
